@@ -213,6 +213,8 @@ def check(src, rep):
         rep.ok("R6", "frame = body", "LlcPdu wraps the same NotificationBody grammar object; both entry points hand its list_items to the same normaliser")
     else:
         rep.violation("R6", "aidon", "frame-body", "frame and bare-body decoding do not share grammar and normaliser", file, 1, witness=f"routes={len(rs)} parse={tg} args={a1},{a2}")
+    from sa.cross import include
+    include(rep, src, "C10", {"R1", "R2", "R3", "R4"}, "R5", "the clock element is the transmitted date-time")
     rep.floor("element paths", n_store, 3)
 
 
